@@ -84,6 +84,7 @@ fn main() {
                         if i % 250 == 7 { g::HUGE.with(|h| h.set(true)); }
                         cases.push(g::gen_body(&mut rng, true, false))
                     }),
+                    "long" => (0..n).for_each(|i| cases.push(g::gen_long(&mut rng, i))),
                     "hold" => (0..n).for_each(|_| cases.push(g::gen_hold(&mut rng))),
                     "respfail" => (0..n).for_each(|_| cases.push(g::gen_respfail(&mut rng))),
                     "badhold" => (0..n).for_each(|i| cases.push(g::gen_bad_expect_hold(&mut rng, i % 3))),
